@@ -232,6 +232,18 @@ fn check_faults(t: &mut Tape, ctx: &Ctx) -> Outcome {
     term.take();
     let listing = term.listing_text();
     let listed_of = |n: u16| -> Option<String> { listing.iter().find(|l| l.starts_with(&format!("{} ", n))).cloned() };
+    // ---- before anything enters the program: direct statements that stay outside it work, also
+    // as the very first statement after the edit and also when they mention a (faulty) line
+    if t.chance(1, 2) && !prog.lines.is_empty() {
+        let n = prog.lines[t.below(prog.lines.len())].num;
+        for (cmd, want) in [("PRINT 6*7".to_string(), " 42 \n"), (format!("IF 0 THEN {} ELSE PRINT 7", n), " 7 \n"), (format!("Q6=2:ON Q6 GOTO {}:PRINT 8", n), " 8 \n")] {
+            term.line(&cmd, &mut op);
+            let ev = flat(&term.take());
+            if ev != want {
+                return Outcome::fail("direct-statement-blocked", format!("{:?} (typed right after the program, before any RUN) printed {:?}, expected {:?}", cmd, ev, want), format!("{}\n> {}", case, cmd));
+            }
+        }
+    }
     // ---- RUN with TRON: the diagnostics, and nothing else
     term.line("TRON", &mut op);
     term.take();
